@@ -707,8 +707,25 @@ def main_check(mod, argv):
         "axioms reported by Print Assumptions for this property's theorems: %s" % (", ".join(own_axioms) if own_axioms else "none (closed under the global context)"),
         "extraction: ExtrOcamlBasic + ExtrOcamlZBigInt (stdlib directives verbatim), OCaml 4.13.1 + zarith 1.12, driver/main.ml.in (s-expression I/O, libm oracles)",
         "correspondence harness harness/%s.py + harness/common.py (generators, canonicalisation, comparison)" % pid.lower(),
-        "the Gallina model is hand-written; it is tied to /repo only by the correspondence cases of this run",
     ]
+    links = sorted(t["name"] for t in proof["theorems"] if "model_is_source" in t["name"] or "_source_" in t["name"])
+    if links:
+        try:
+            import src_functions
+            import re as _re
+            props_txt = open(os.path.join(VERIF, "coq", "theories", "Props", pid + ".v")).read()
+            cfgs = [c for c in src_functions.ALL if _re.search(r"(?<![A-Za-z0-9_'])" + _re.escape(c["name"]) + r"(?![A-Za-z0-9_'])", props_txt)]
+            funcs = sorted({("%s.%s" % (c["cls"], c["func"]) if c.get("cls") else c["func"]) for c in cfgs})
+            nprims = sum(len(c.get("prims", [])) + len(c.get("effects", [])) + len(c.get("effect_calls", [])) + len(c.get("stmt_prims", []))
+                         + len(c.get("state_calls", [])) + len(c.get("kwcalls", [])) for c in cfgs)
+        except Exception:   # noqa: BLE001 - descriptive text only
+            funcs, nprims = [], 0
+        trusted.append("the Gallina model is hand-written; it is tied to /repo (a) by the source-translation links %s: %d function(s) re-translated from "
+                       "/repo's current source on this run by harness/py2gal.py%s - trusted there: the translator, Lib/PyRt.v as the meaning of the Python "
+                       "constructs, and the %d primitive / effect templates of their configurations in harness/src_functions.py; (b) by the correspondence cases of this run"
+                       % (", ".join(links[:6]) + (" ..." if len(links) > 6 else ""), len(funcs), (" (" + ", ".join(funcs[:12]) + (" ..." if len(funcs) > 12 else "") + ")") if funcs else "", nprims))
+    else:
+        trusted.append("the Gallina model is hand-written; it is tied to /repo only by the correspondence cases of this run")
     ev = dict(
         property_id=pid, tier=tier, seed=seed, level=getattr(mod, "LEVEL", "proof"),
         coverage=dict(
